@@ -635,6 +635,13 @@ func c09OneDContent(rng *fw.Rand, ws *writerSpec) (toWriter, canonical string) {
 			}
 			return string("TN*E"[rng.Intn(4)]) + data + string("TN*E"[rng.Intn(4)]), data
 		case "CODE_128": // all of ASCII (control characters select code set A)
+			if rng.Bool() { // digit strings and text ending in digits: the symbol ends in code set C
+				d := digitsN(rng, 2*(2+rng.Intn(10)))
+				if rng.Bool() {
+					d = fromAlphabet(rng, "ABCxyz-", 1+rng.Intn(6)) + d
+				}
+				return d, d
+			}
 			b := make([]byte, 1+rng.Intn(30))
 			for i := range b {
 				b[i] = byte(rng.Intn(0x80))
